@@ -149,6 +149,24 @@ func TestExploreFP(t *testing.T) {
 			st.ChainEvents += len(seqv)
 		}
 	}
+	// every IP identification value through the fast path (one cached client; direct and, in the
+	// thorough tier, relayed replies, whose header words differ)
+	sweeps := []*Sys{all[0].WithFastPath()}
+	if tier == "thorough" {
+		sweeps = append(sweeps, all[2].WithFastPath())
+	}
+	for _, sw := range sweeps {
+		sw.Sweep = true
+		evs := []core.Event{{"op": "DISC", "c": 1, "u": -1}, {"op": "REQSEL", "c": 1, "u": -1}}
+		tab, pr := core.Chain(sw, sw.Name()+"#sweep", evs, false)
+		if pr != nil {
+			st.Panics = append(st.Panics, *pr)
+		} else {
+			bundle.Systems = append(bundle.Systems, tab)
+			st.Chains++
+			st.ChainEvents += len(evs)
+		}
+	}
 	if err := core.WriteJSON(out, "bundle.json", bundle); err != nil {
 		t.Fatal(err)
 	}
@@ -218,20 +236,6 @@ func TestExplore(t *testing.T) {
 			bundle.Systems = append(bundle.Systems, tab)
 			st.Chains++
 			st.ChainEvents += len(seqv)
-		}
-	}
-	// every IP identification value through the fast path, in two cached states
-	{
-		sw := all[0].WithFastPath()
-		sw.Sweep = true
-		evs := []core.Event{{"op": "DISC", "c": 1, "u": -1}, {"op": "REQSEL", "c": 1, "u": -1}, {"op": "DISC", "c": 2, "u": -1}, {"op": "REQSEL", "c": 2, "u": -1}, {"op": "REL", "c": 1, "u": -1}}
-		tab, pr := core.Chain(sw, sw.Name()+"#sweep", evs, false)
-		if pr != nil {
-			st.Panics = append(st.Panics, *pr)
-		} else {
-			bundle.Systems = append(bundle.Systems, tab)
-			st.Chains++
-			st.ChainEvents += len(evs)
 		}
 	}
 	if err := core.WriteJSON(out, "bundle.json", bundle); err != nil {
